@@ -52,6 +52,19 @@ def run_state(params, regs_ops, flavour='adapter', removed=()):
     lidx = params.get('lookup_idx') or list(range(len(lpool)))
     arities = sorted(set(len(op[1]) for op in regs_ops)) or [1]
     sentinel = object()
+    _sweep(params, u, model, regs_ops, lpool, lidx, arities, sentinel, '')
+    if params.get('redeclare'):
+        # the same registry contents under a changed hierarchy: the class whose declaration is among the looked-up specifications is
+        # re-declared (every answer above is cached by now), and the rule must hold for the new resolution orders
+        from zope.interface import classImplementsFirst, classImplementsOnly
+        classImplementsFirst(u.K0, u.R[3])
+        _sweep(params, u, model, regs_ops, lpool, lidx, arities, sentinel, ' after classImplementsFirst(K0, R3)')
+        classImplementsOnly(u.K0, u.R[2])
+        _sweep(params, u, model, regs_ops, lpool, lidx, arities, sentinel, ' after classImplementsOnly(K0, R2)')
+    _registered_back(u, model, regs_ops, pool)
+
+
+def _sweep(params, u, model, regs_ops, lpool, lidx, arities, sentinel, when):
     for ri in range(len(u.regs)):
         reg = u.regs[ri]
         for a in arities:
@@ -61,8 +74,8 @@ def run_state(params, regs_ops, flavour='adapter', removed=()):
                     for name in params.get('lookup_names', ('', 'n')):
                         adm = M.lookup_admissible(model, u, ri, specs, p, name)
                         got = reg.lookup(specs, p, name, sentinel)
-                        what = 'registrations=%s; reg%d.lookup((%s), P%d, %r)' % (
-                            _fmt(u, regs_ops), ri, ', '.join(u.lookup_names()[c] for c in combo), pi, name)
+                        what = 'registrations=%s;%s reg%d.lookup((%s), P%d, %r)' % (
+                            _fmt(u, regs_ops), when, ri, ', '.join(u.lookup_names()[c] for c in combo), pi, name)
                         again = reg.lookup(specs, p, name, sentinel)      # the same key once more (answer cached by now)
                         if again is not got:
                             raise Violation('%s returned %r, the same call repeated returns %r' % (what, got, again),
@@ -80,6 +93,9 @@ def run_state(params, regs_ops, flavour='adapter', removed=()):
                             if got1 is not got:
                                 raise Violation('%s: lookup1 gives %r, lookup gives %r' % (what, got1, got),
                                                 signature='C04:lookup1')
+
+
+def _registered_back(u, model, regs_ops, pool):
     # registered() reads back exactly what was registered
     for k, (ri, req, pi, name) in enumerate(regs_ops):
         required = [pool[q] for q in req]
@@ -374,7 +390,7 @@ _ENC = ['zope.interface.adapter:_lookup', 'zope.interface.adapter:AdapterLookupB
         'zope.interface.adapter:LookupBaseFallback.lookup', 'zope.interface.adapter:LookupBaseFallback.lookup1',
         'zope.interface.adapter:BaseAdapterRegistry.register', 'zope.interface.adapter:BaseAdapterRegistry.registered']
 
-_Q1 = dict(nregs=2, L=2, req1=[0, 1, 2, 3, 5], provs=[0, 1, 2, 3], names=['', 'n'], arity0=False)
+_Q1 = dict(nregs=2, L=2, req1=[0, 1, 2, 3, 5], provs=[0, 1, 2, 3], names=['', 'n'], arity0=False, redeclare=True)
 _Q1b = dict(nregs=2, L=3, req1=[0, 1, 3, 5], provs=[0, 1, 3], names=[''], arity0=False, minlen=3)
 _Q2 = dict(nregs=2, L=2, req1=[], provs=[0, 1], names=[''], arity0=True, arity2=True, req2=[0, 1, 2, 3],
            lookup_idx=[0, 1, 3, 4, 6], lookup_names=('',))
